@@ -1,7 +1,8 @@
 /-
 C03 — Level coupling keeps the coarse path in the previous level's law (telescoping).   Property theorems only.
 Model: RpylibModel/Model/Coupling.lean (+ Model/Grid.lean `refine`, Model/Cells.lean `rate`, `intensity1d`, `rateNd`).
-Helper lemmas: Proofs/Lemmas/C03Basic.lean, C03Nd.lean.
+Helper lemmas: Proofs/Lemmas/C03Basic.lean, C03Nd.lean, C03Sub.lean (sub-cells, any axes), C03Nd3.lean, C03Nd3Flow.lean (d = 3),
+C03Axes.lean (d = 2, two different axes).
 
 Quantification (1-d): every coarse axis `axc` (`AxisOK`: strictly increasing, 0 at the interior index `o`), every
 cell-boundary function strictly inside its gap (`Between`) with `mid a a = a` (`MidIdem`), every interval mass that is
@@ -12,6 +13,8 @@ additive and non-negative on intervals strictly on one side of 0 (`IsMass`); the
 import RpylibModel.Proofs.Lemmas.C03Basic
 import RpylibModel.Proofs.Lemmas.C03Nd
 import RpylibModel.Proofs.Lemmas.C03Cex
+import RpylibModel.Proofs.Lemmas.C03Nd3Flow
+import RpylibModel.Proofs.Lemmas.C03Axes
 
 set_option linter.dupNamespace false
 set_option linter.unusedVariables false
@@ -362,6 +365,82 @@ theorem levels_wellFormed {D : Type} (zero : D) (mid : ℚ → ℚ → ℚ) (hm 
   rw [(levelAt_grid zero mid chain g l).1]
   exact Grid.Grid.refineN_wellFormed mid hm ho l g hg
 
+/-! ### the SDE coupling (`CouplingSDE`): the record kept by `next_level` -/
+
+/-- invariant of `CouplingSDE` after l calls of `next_level` -/
+theorem sdeLevelAt_inv (mid : ℚ → ℚ → ℚ) (chain : Grid → ChainParams ℚ) (g : Grid) (l : ℕ) :
+    let S := sdeLevelAt mid chain g l
+    S.level = l ∧ S.drv.level = l ∧ S.drv.grid = Grid.Grid.refineN mid l g ∧
+    S.drv.fine = chain (Grid.Grid.refineN mid l g) ∧ S.drv.diffFine = (chain (Grid.Grid.refineN mid l g)).diff ∧
+    S.mcDriftH = (chain (Grid.Grid.refineN mid l g)).drift ∧ S.epsH = (Grid.Grid.refineN mid l g).h := by
+  induction l with
+  | zero => exact ⟨rfl, rfl, rfl, rfl, rfl, rfl, rfl⟩
+  | succ l ih =>
+    obtain ⟨h1, h2, h3, h4, h5, h6, h7⟩ := ih
+    have eg : (sdeLevelAt mid chain g (l + 1)).drv.grid = Grid.Grid.refineN mid (l + 1) g := by
+      show ((sdeLevelAt mid chain g l).drv.grid).refine mid = _
+      rw [h3, gridRefineN_succ]
+    refine ⟨?_, ?_, eg, ?_, ?_, ?_, ?_⟩
+    · show (sdeLevelAt mid chain g l).level + 1 = l + 1
+      rw [h1]
+    · show (sdeLevelAt mid chain g l).drv.level + 1 = l + 1
+      rw [h2]
+    · show chain (((sdeLevelAt mid chain g l).drv.grid).refine mid) = _
+      rw [h3, gridRefineN_succ]
+    · show (chain (((sdeLevelAt mid chain g l).drv.grid).refine mid)).diff = _
+      rw [h3, gridRefineN_succ]
+    · show (chain (((sdeLevelAt mid chain g l).drv.grid).refine mid)).drift = _
+      rw [h3, gridRefineN_succ]
+    · show (sdeLevelAt mid chain g l).drv.grid.h / 2 = _
+      rw [h3, gridRefineN_succ]; rfl
+
+/-- **levels of the SDE coupling**: after l + 1 calls of `CouplingSDE.next_level` the fine component is driven by the
+    level-(l+1) driver chain (its CTMC drift, its diffusion coefficient), the coarse component by exactly the quantities of
+    the level-l driver chain - those the fine component used one level earlier -, both read the same Brownian increments
+    through the driver coupling, and the maximum time step is the Blumenthal-Getoor power of the current spatial step -/
+theorem sde_levels_induct (mid : ℚ → ℚ → ℚ) (chain : Grid → ChainParams ℚ) (g : Grid) (l : ℕ) :
+    let S := sdeLevelAt mid chain g (l + 1)
+    let prev := chain (Grid.Grid.refineN mid l g)
+    let cur := chain (Grid.Grid.refineN mid (l + 1) g)
+    S.level = l + 1 ∧ S.drv.grid = Grid.Grid.refineN mid (l + 1) g ∧
+    S.mcDriftH = cur.drift ∧ S.drv.diffFine = cur.diff ∧
+    S.mcDrift2H = some prev.drift ∧ S.drv.diffCoarse = prev.diff ∧
+    sdeUses S 0 = some (cur.drift, cur.diff) ∧
+    sdeUses S 1 = some (prev.drift, prev.diff) ∧
+    sdeUses S 1 = sdeUses (sdeLevelAt mid chain g l) 0 ∧
+    S.epsH = (Grid.Grid.refineN mid (l + 1) g).h ∧ S.epsH = (sdeLevelAt mid chain g l).epsH / 2 := by
+  intro S prev cur
+  obtain ⟨a1, a2, a3, a4, a5, a6, a7⟩ := sdeLevelAt_inv mid chain g l
+  obtain ⟨b1, b2, b3, b4, b5, b6, b7⟩ := sdeLevelAt_inv mid chain g (l + 1)
+  have c2 : S.mcDrift2H = some prev.drift := by
+    show some (sdeLevelAt mid chain g l).mcDriftH = _
+    rw [a6]
+  have dc : S.drv.diffCoarse = prev.diff := by
+    show (sdeLevelAt mid chain g l).drv.diffFine = _
+    rw [a5]
+  have u0 : sdeUses S 0 = some (cur.drift, cur.diff) := by
+    unfold sdeUses; rw [if_pos rfl, b6, b5]
+  have u1 : sdeUses S 1 = some (prev.drift, prev.diff) := by
+    unfold sdeUses; rw [if_neg (by decide), c2, dc]; rfl
+  refine ⟨b1, b3, b6, b5, c2, dc, u0, u1, ?_, b7, ?_⟩
+  · rw [u1]; unfold sdeUses; rw [if_pos rfl, a6, a5]
+  · show (sdeLevelAt mid chain g l).drv.grid.h / 2 = _
+    rw [a3, a7]
+
+/-- the coarse diffusion path of the SDE's driver at level l + 1 is the fine one of level l for the same `w` -/
+theorem sde_same_brownian_increments (mid : ℚ → ℚ → ℚ) (chain : Grid → ChainParams ℚ) (g : Grid) (l : ℕ)
+    (sqrtDts w : List ℚ) :
+    (diffPaths (sdeLevelAt mid chain g (l + 1)).drv sqrtDts w).2 = (diffPaths (sdeLevelAt mid chain g l).drv sqrtDts w).1 :=
+  rfl
+
+/-- the negation of a "frozen level-0 coarse drift": with a chain whose drift changes with the level, the coarse drift of
+    level 2 is the level-1 drift, not the level-0 one -/
+example : (sdeLevelAt amid (fun g => ⟨g.h, g.h * 3, 0⟩) ⟨[[-1, 0, 1]], 1, 1⟩ 2).mcDrift2H = some (3 / 2) ∧
+    (sdeLevelAt amid (fun g => ⟨g.h, g.h * 3, 0⟩) ⟨[[-1, 0, 1]], 1, 1⟩ 0).mcDriftH = 3 ∧
+    sdeUses (sdeLevelAt amid (fun g => ⟨g.h, g.h * 3, 0⟩) ⟨[[-1, 0, 1]], 1, 1⟩ 2) 1 = some (3 / 2, 1 / 2) ∧
+    sdeUses (sdeLevelAt amid (fun g => ⟨g.h, g.h * 3, 0⟩) ⟨[[-1, 0, 1]], 1, 1⟩ 2) 0 = some (3 / 4, 1 / 4) := by
+  decide +kernel
+
 /-! ### n-d, written out for d = 2 on a grid whose two axes are equal (every grid constructor builds such grids) -/
 
 /-- an odd coordinate of the increment points at an interior position other than the origin (automatic on a refined
@@ -557,6 +636,372 @@ theorem telescoping_nd_independent_off (I J : ℕ) (hI : I < axc.length) (hJ : J
 
 end independent
 
+/-! ### the sum over `states` the driver evaluates (`coupledRateNd`) is the double / triple sum of the theorems -/
+
+theorem coupledRateNd_two (a b : List ℚ) (o : ℕ) (m : MarginMass) (ys : List ℕ) :
+    coupledRateNd [a, b] o m ys = coupledRate2 [a, b] o m ys := by
+  unfold coupledRateNd coupledRate2 states
+  simp only [List.map_cons, List.map_nil, List.getD_cons_zero, List.getD_cons_succ]
+  rw [cartesian_two, sum_map_flatMap]
+  simp only [List.map_map, Function.comp_def]
+
+theorem coupledRateNd_three (a b c : List ℚ) (o : ℕ) (m : MarginMass) (ys : List ℕ) :
+    coupledRateNd [a, b, c] o m ys = coupledRate3 [a, b, c] o m ys := by
+  unfold coupledRateNd coupledRate3 states
+  simp only [List.map_cons, List.map_nil, List.getD_cons_zero, List.getD_cons_succ]
+  rw [cartesian_three, sum_map_flatMap]
+  simp only [sum_map_flatMap, List.map_map, Function.comp_def]
+
+/-! ### n-d, written out for d = 3 on a grid whose three axes are equal: all seven parities of the increment -/
+
+theorem oddInterior_split (ax : List ℚ) (o : ℕ) (hax : AxisOK ax o) (i : ℤ) (hi : OddInterior ax o i) (hp : i % 2 ≠ 0) :
+    CellSplit ax (posOf o i) ∧ halfLo ax (posOf o i) = (cellLo amid ax (posOf o i), pt ax (posOf o i)) ∧
+      halfHi ax (posOf o i) = (pt ax (posOf o i), cellHi amid ax (posOf o i)) ∧
+      wholeCell ax (posOf o i) = (cellLo amid ax (posOf o i), cellHi amid ax (posOf o i)) := by
+  obtain ⟨a0, a1, ao⟩ := hi hp
+  exact ⟨cellSplit_of ax o hax _ (by omega) ao, half_cells ax hax.inc _ a0 a1⟩
+
+section three_d
+variable (ax : List ℚ) (o : ℕ) (hax : AxisOK ax o) (m : MarginMass)
+  (h0 : IsMass (fun a b => m [0] [(a, b)])) (h1 : IsMass (fun a b => m [1] [(a, b)]))
+  (h2 : IsMass (fun a b => m [2] [(a, b)]))
+  (h01 : IsBoxMass2 (fun a b c d => m [0, 1] [(a, b), (c, d)]))
+  (h02 : IsBoxMass2 (fun a b c d => m [0, 2] [(a, b), (c, d)]))
+  (h12 : IsBoxMass2 (fun a b c d => m [1, 2] [(a, b), (c, d)]))
+  (h012 : IsBoxMass3 (fun a b c d e f => m [0, 1, 2] [(a, b), (c, d), (e, f)]))
+include hax h0 h1 h2 h01 h02 h12 h012
+
+/-- **d = 3: the 2 / 4 / 8 corner probabilities of `__coupling_state` sum to 1** whichever coordinates of the increment are
+    odd (one, two or three of them), for every family of margin masses: the margins of one coordinate are interval masses,
+    those of two coordinates rectangle masses, the joint one a box mass -/
+theorem corner_probs_sum_one_3d (i1 i2 i3 : ℤ) (hodd : i1 % 2 ≠ 0 ∨ i2 % 2 ≠ 0 ∨ i3 % 2 ≠ 0)
+    (hi1 : OddInterior ax o i1) (hi2 : OddInterior ax o i2) (hi3 : OddInterior ax o i3)
+    (hT : m (oddAxes [i1, i2, i3]) (totalBox [ax, ax, ax] (oddAxes [i1, i2, i3]) (posNd o [i1, i2, i3])) ≠ 0) :
+    (cornerProbs [ax, ax, ax] o m [i1, i2, i3]).sum = 1 := by
+  by_cases p1 : i1 % 2 = 0 <;> by_cases p2 : i2 % 2 = 0 <;> by_cases p3 : i3 % 2 = 0
+  · tauto
+  · obtain ⟨sc, c1, c2, c3⟩ := oddInterior_split ax o hax i3 hi3 p3
+    have hS : oddAxes [i1, i2, i3] = [2] := by rw [oddAxes_three]; simp [p1, p2, p3]
+    rw [hS, totalBox3_1 ax o i1 i2 i3 2 (by omega)] at hT
+    simp only [List.getD_cons_succ, List.getD_cons_zero, c3] at hT
+    rw [cornerProbs3_001 ax o m i1 i2 i3 p1 p2 p3, c1, c2, c3]
+    simp only [List.sum_cons, List.sum_nil, add_zero]
+    exact div_sum2 _ _ _ (halves_sum _ h2 ax _ sc) hT
+  · obtain ⟨sc, c1, c2, c3⟩ := oddInterior_split ax o hax i2 hi2 p2
+    have hS : oddAxes [i1, i2, i3] = [1] := by rw [oddAxes_three]; simp [p1, p2, p3]
+    rw [hS, totalBox3_1 ax o i1 i2 i3 1 (by omega)] at hT
+    simp only [List.getD_cons_succ, List.getD_cons_zero, c3] at hT
+    rw [cornerProbs3_010 ax o m i1 i2 i3 p1 p2 p3, c1, c2, c3]
+    simp only [List.sum_cons, List.sum_nil, add_zero]
+    exact div_sum2 _ _ _ (halves_sum _ h1 ax _ sc) hT
+  · obtain ⟨sc, c1, c2, c3⟩ := oddInterior_split ax o hax i2 hi2 p2
+    obtain ⟨sd, d1, d2, d3⟩ := oddInterior_split ax o hax i3 hi3 p3
+    have hS : oddAxes [i1, i2, i3] = [1, 2] := by rw [oddAxes_three]; simp [p1, p2, p3]
+    rw [hS, totalBox3_2 ax o i1 i2 i3 1 2 (by omega) (by omega)] at hT
+    simp only [List.getD_cons_succ, List.getD_cons_zero, c3, d3] at hT
+    rw [cornerProbs3_011 ax o m i1 i2 i3 p1 p2 p3]
+    simp only [c1, c2, c3, d1, d2, d3, List.sum_cons, List.sum_nil, add_zero]
+    rw [← add_assoc, ← add_assoc]
+    exact div_sum4 _ _ _ _ _ (quarters_sum _ h12 ax ax _ _ sc sd) hT
+  · obtain ⟨sc, c1, c2, c3⟩ := oddInterior_split ax o hax i1 hi1 p1
+    have hS : oddAxes [i1, i2, i3] = [0] := by rw [oddAxes_three]; simp [p1, p2, p3]
+    rw [hS, totalBox3_1 ax o i1 i2 i3 0 (by omega)] at hT
+    simp only [List.getD_cons_zero, c3] at hT
+    rw [cornerProbs3_100 ax o m i1 i2 i3 p1 p2 p3, c1, c2, c3]
+    simp only [List.sum_cons, List.sum_nil, add_zero]
+    exact div_sum2 _ _ _ (halves_sum _ h0 ax _ sc) hT
+  · obtain ⟨sc, c1, c2, c3⟩ := oddInterior_split ax o hax i1 hi1 p1
+    obtain ⟨sd, d1, d2, d3⟩ := oddInterior_split ax o hax i3 hi3 p3
+    have hS : oddAxes [i1, i2, i3] = [0, 2] := by rw [oddAxes_three]; simp [p1, p2, p3]
+    rw [hS, totalBox3_2 ax o i1 i2 i3 0 2 (by omega) (by omega)] at hT
+    simp only [List.getD_cons_succ, List.getD_cons_zero, c3, d3] at hT
+    rw [cornerProbs3_101 ax o m i1 i2 i3 p1 p2 p3]
+    simp only [c1, c2, c3, d1, d2, d3, List.sum_cons, List.sum_nil, add_zero]
+    rw [← add_assoc, ← add_assoc]
+    exact div_sum4 _ _ _ _ _ (quarters_sum _ h02 ax ax _ _ sc sd) hT
+  · obtain ⟨sc, c1, c2, c3⟩ := oddInterior_split ax o hax i1 hi1 p1
+    obtain ⟨sd, d1, d2, d3⟩ := oddInterior_split ax o hax i2 hi2 p2
+    have hS : oddAxes [i1, i2, i3] = [0, 1] := by rw [oddAxes_three]; simp [p1, p2, p3]
+    rw [hS, totalBox3_2 ax o i1 i2 i3 0 1 (by omega) (by omega)] at hT
+    simp only [List.getD_cons_succ, List.getD_cons_zero, c3, d3] at hT
+    rw [cornerProbs3_110 ax o m i1 i2 i3 p1 p2 p3]
+    simp only [c1, c2, c3, d1, d2, d3, List.sum_cons, List.sum_nil, add_zero]
+    rw [← add_assoc, ← add_assoc]
+    exact div_sum4 _ _ _ _ _ (quarters_sum _ h01 ax ax _ _ sc sd) hT
+  · obtain ⟨sc, c1, c2, c3⟩ := oddInterior_split ax o hax i1 hi1 p1
+    obtain ⟨sd, d1, d2, d3⟩ := oddInterior_split ax o hax i2 hi2 p2
+    obtain ⟨se, e1, e2, e3⟩ := oddInterior_split ax o hax i3 hi3 p3
+    have hS : oddAxes [i1, i2, i3] = [0, 1, 2] := by rw [oddAxes_three]; simp [p1, p2, p3]
+    rw [hS, totalBox3_3, c3, d3, e3] at hT
+    rw [cornerProbs3_111 ax o m i1 i2 i3 p1 p2 p3]
+    simp only [c1, c2, c3, d1, d2, d3, e1, e2, e3, List.sum_cons, List.sum_nil, add_zero]
+    simp only [← add_assoc]
+    exact div_sum8 _ _ _ _ _ _ _ _ _ (eighths_sum _ h012 ax ax ax _ _ _ sc sd se) hT
+
+/-- hence the 3-d `__coupling_state` returns a state for every uniform u ≤ 1 -/
+theorem coupleNd_never_raises_3d (i1 i2 i3 : ℤ) (hi1 : OddInterior ax o i1) (hi2 : OddInterior ax o i2)
+    (hi3 : OddInterior ax o i3)
+    (hT : m (oddAxes [i1, i2, i3]) (totalBox [ax, ax, ax] (oddAxes [i1, i2, i3]) (posNd o [i1, i2, i3])) ≠ 0)
+    (u : ℚ) (hu : u ≤ 1) :
+    (coupleNd [ax, ax, ax] o m [i1, i2, i3] u).isSome := by
+  unfold coupleNd
+  by_cases hE : (oddAxes [i1, i2, i3]).isEmpty
+  · simp [hE]
+  · have hodd : i1 % 2 ≠ 0 ∨ i2 % 2 ≠ 0 ∨ i3 % 2 ≠ 0 := by
+      by_contra hc
+      have hc1 : i1 % 2 = 0 := by tauto
+      have hc2 : i2 % 2 = 0 := by tauto
+      have hc3 : i3 % 2 = 0 := by tauto
+      apply hE; rw [oddAxes_three]; simp [hc1, hc2, hc3]
+    have hs := corner_probs_sum_one_3d ax o hax m h0 h1 h2 h01 h02 h12 h012 i1 i2 i3 hodd hi1 hi2 hi3 hT
+    simp only [hE, Bool.false_eq_true, if_false]
+    have hsum : (((signs (oddAxes [i1, i2, i3]).length).map (fun p =>
+        (cornerProb [ax, ax, ax] m (oddAxes [i1, i2, i3]) (posNd o [i1, i2, i3]) p,
+          cornerRes [ax, ax, ax] (oddAxes [i1, i2, i3]) (posNd o [i1, i2, i3]) p))).map Prod.fst).sum = 1 := by
+      rw [List.map_map]; exact hs
+    apply pickCorner_some
+    · rw [hsum]; linarith
+    · intro hnil; rw [hnil] at hsum; simp at hsum
+
+end three_d
+
+/-! ### d = 3, independent components: the margin-based corner probabilities are exact -/
+
+section independent3
+variable (axc : List ℚ) (o : ℕ) (hax : AxisOK axc o) (m : MarginMass) (m1 m2 m3 : ℚ → ℚ → ℚ)
+  (hM1 : IsMass m1) (hM2 : IsMass m2) (hM3 : IsMass m3) (hC : CarriedByAxes3 m m1 m2 m3)
+include hax hM1 hM2 hM3 hC
+
+theorem refine_len_odd3 : (refine amid axc).length % 2 = 1 := by
+  rw [refine_len]; have := hax.hi; omega
+
+/-- **telescoping, d = 3, mass carried by the axes**: the coupled coarse rate of every coarse state on the first axis is
+    its rate in the chain built on the un-refined grid -/
+theorem telescoping_nd_independent_3d (I : ℕ) (hI : I < axc.length) (hIo : I ≠ o) :
+    coupledRate3 [refine amid axc, refine amid axc, refine amid axc] (2 * o) m [2 * I, 2 * o, 2 * o] =
+      rateNd amid [axc, axc, axc] o (joint 3 m) [I, o, o] := by
+  have hf := refine_axisOK amid amid_between axc o hax
+  have hlo := refine_len_odd3 axc o hax m m1 m2 m3 hM1 hM2 hM3 hC
+  have hlen := refine_len amid axc
+  have hon : 2 * o < (refine amid axc).length := by have := hax.hi; omega
+  rw [rate3_on_axis1 axc o hax m m1 m2 m3 hC I hI,
+    ← (telescoping_1d amid amid_between amid_idem axc o hax m1 hM1 I hI hIo).1]
+  unfold coupledRate3 coupledRate
+  simp only [List.getD_cons_zero, List.getD_cons_succ]
+  rw [sum_map_range, sum_map_range]
+  apply sum_congr rfl
+  intro i hi'
+  have hi'' := mem_range.mp hi'
+  rw [sum_map_range, ← flow3_on_axis1 _ o hf hlo m m1 m2 m3 hM1 hM2 hM3 hC i (2 * I) hi'']
+  rw [sum_eq_single (2 * o)]
+  · rw [sum_map_range, sum_eq_single (2 * o)]
+    · intro k hk hko
+      exact flow3_zero_to_axis1 _ o hf hlo m m1 m2 m3 hM1 hM2 hM3 hC i (2 * o) k (2 * I) hi'' hon (mem_range.mp hk)
+        (by omega) (Or.inr hko)
+    · intro h; exact absurd (mem_range.mpr hon) h
+  · intro j hj hjo
+    rw [sum_map_range]
+    apply sum_eq_zero
+    intro k hk
+    exact flow3_zero_to_axis1 _ o hf hlo m m1 m2 m3 hM1 hM2 hM3 hC i j k (2 * I) hi'' (mem_range.mp hj) (mem_range.mp hk)
+      (by omega) (Or.inl hjo)
+  · intro h; exact absurd (mem_range.mpr hon) h
+
+/-- the same on the second axis -/
+theorem telescoping_nd_independent_3d_axis2 (J : ℕ) (hJ : J < axc.length) (hJo : J ≠ o) :
+    coupledRate3 [refine amid axc, refine amid axc, refine amid axc] (2 * o) m [2 * o, 2 * J, 2 * o] =
+      rateNd amid [axc, axc, axc] o (joint 3 m) [o, J, o] := by
+  have hf := refine_axisOK amid amid_between axc o hax
+  have hlo := refine_len_odd3 axc o hax m m1 m2 m3 hM1 hM2 hM3 hC
+  have hlen := refine_len amid axc
+  have hon : 2 * o < (refine amid axc).length := by have := hax.hi; omega
+  rw [rate3_on_axis2 axc o hax m m1 m2 m3 hC J hJ,
+    ← (telescoping_1d amid amid_between amid_idem axc o hax m2 hM2 J hJ hJo).1]
+  unfold coupledRate3 coupledRate
+  simp only [List.getD_cons_zero, List.getD_cons_succ]
+  rw [sum_map_range, sum_map_range, sum_eq_single (2 * o)]
+  · rw [sum_map_range]
+    apply sum_congr rfl
+    intro j hj
+    have hj' := mem_range.mp hj
+    rw [sum_map_range, ← flow3_on_axis2 _ o hf hlo m m1 m2 m3 hM1 hM2 hM3 hC j (2 * J) hj', sum_eq_single (2 * o)]
+    · intro k hk hko
+      exact flow3_zero_to_axis2 _ o hf hlo m m1 m2 m3 hM1 hM2 hM3 hC (2 * o) j k (2 * J) hon hj' (mem_range.mp hk)
+        (by omega) (Or.inr hko)
+    · intro h; exact absurd (mem_range.mpr hon) h
+  · intro i hi' hio
+    rw [sum_map_range]
+    apply sum_eq_zero
+    intro j hj
+    rw [sum_map_range]
+    apply sum_eq_zero
+    intro k hk
+    exact flow3_zero_to_axis2 _ o hf hlo m m1 m2 m3 hM1 hM2 hM3 hC i j k (2 * J) (mem_range.mp hi') (mem_range.mp hj)
+      (mem_range.mp hk) (by omega) (Or.inl hio)
+  · intro h; exact absurd (mem_range.mpr hon) h
+
+/-- … and on the third axis -/
+theorem telescoping_nd_independent_3d_axis3 (K : ℕ) (hK : K < axc.length) (hKo : K ≠ o) :
+    coupledRate3 [refine amid axc, refine amid axc, refine amid axc] (2 * o) m [2 * o, 2 * o, 2 * K] =
+      rateNd amid [axc, axc, axc] o (joint 3 m) [o, o, K] := by
+  have hf := refine_axisOK amid amid_between axc o hax
+  have hlo := refine_len_odd3 axc o hax m m1 m2 m3 hM1 hM2 hM3 hC
+  have hlen := refine_len amid axc
+  have hon : 2 * o < (refine amid axc).length := by have := hax.hi; omega
+  rw [rate3_on_axis3 axc o hax m m1 m2 m3 hC K hK,
+    ← (telescoping_1d amid amid_between amid_idem axc o hax m3 hM3 K hK hKo).1]
+  unfold coupledRate3 coupledRate
+  simp only [List.getD_cons_zero, List.getD_cons_succ]
+  rw [sum_map_range, sum_map_range, sum_eq_single (2 * o)]
+  · rw [sum_map_range, sum_eq_single (2 * o)]
+    · rw [sum_map_range]
+      apply sum_congr rfl
+      intro k hk
+      exact flow3_on_axis3 _ o hf hlo m m1 m2 m3 hM1 hM2 hM3 hC k (2 * K) (mem_range.mp hk)
+    · intro j hj hjo
+      rw [sum_map_range]
+      apply sum_eq_zero
+      intro k hk
+      exact flow3_zero_to_axis3 _ o hf hlo m m1 m2 m3 hM1 hM2 hM3 hC (2 * o) j k (2 * K) hon (mem_range.mp hj)
+        (mem_range.mp hk) (by omega) (Or.inr hjo)
+    · intro h; exact absurd (mem_range.mpr hon) h
+  · intro i hi' hio
+    rw [sum_map_range]
+    apply sum_eq_zero
+    intro j hj
+    rw [sum_map_range]
+    apply sum_eq_zero
+    intro k hk
+    exact flow3_zero_to_axis3 _ o hf hlo m m1 m2 m3 hM1 hM2 hM3 hC i j k (2 * K) (mem_range.mp hi') (mem_range.mp hj)
+      (mem_range.mp hk) (by omega) (Or.inl hio)
+  · intro h; exact absurd (mem_range.mpr hon) h
+
+/-- … and off the axes: a coarse state with two or three coordinates off the origin has rate 0 in the coarse chain and
+    receives nothing -/
+theorem telescoping_nd_independent_3d_off (I J K : ℕ) (hI : I < axc.length) (hJ : J < axc.length) (hK : K < axc.length)
+    (h : (I ≠ o ∧ J ≠ o) ∨ (I ≠ o ∧ K ≠ o) ∨ (J ≠ o ∧ K ≠ o)) :
+    coupledRate3 [refine amid axc, refine amid axc, refine amid axc] (2 * o) m [2 * I, 2 * J, 2 * K] = 0 ∧
+    rateNd amid [axc, axc, axc] o (joint 3 m) [I, J, K] = 0 := by
+  have hf := refine_axisOK amid amid_between axc o hax
+  have hlo := refine_len_odd3 axc o hax m m1 m2 m3 hM1 hM2 hM3 hC
+  refine ⟨?_, rate3_off_axes axc o hax m m1 m2 m3 hC I J K hI hJ hK h⟩
+  unfold coupledRate3
+  simp only [List.getD_cons_zero, List.getD_cons_succ]
+  rw [sum_map_range]
+  apply sum_eq_zero
+  intro i hi'
+  rw [sum_map_range]
+  apply sum_eq_zero
+  intro j hj
+  rw [sum_map_range]
+  apply sum_eq_zero
+  intro k hk
+  exact flow3_zero_to_off _ o hf hlo m m1 m2 m3 hM1 hM2 hM3 hC i j k _ _ _ (mem_range.mp hi') (mem_range.mp hj)
+    (mem_range.mp hk) (by omega)
+
+end independent3
+
+/-! ### d = 2 on a grid whose two axes differ (`CTMCCredit` with one threshold per margin) -/
+
+/-- the first axis has, around position d, the same neighbours as the second -/
+def AgreeAt (ax1 ax2 : List ℚ) (d : ℕ) : Prop :=
+  d + 1 < ax1.length ∧ pt ax1 (d - 1) = pt ax2 (d - 1) ∧ pt ax1 (d + 1) = pt ax2 (d + 1)
+
+section two_d_axes
+variable (ax1 ax2 : List ℚ) (o : ℕ) (hax1 : AxisOK ax1 o) (hax2 : AxisOK ax2 o) (m : MarginMass)
+  (h0 : IsMass (fun a b => m [0] [(a, b)])) (h1 : IsMass (fun a b => m [1] [(a, b)]))
+  (h01 : IsBoxMass2 (fun a b c d => m [0, 1] [(a, b), (c, d)]))
+include hax1 hax2 h0 h1 h01
+
+/- Full-strength statement, FALSE of the code as written (`axes_counterexample`):
+     (hodd : i1 % 2 ≠ 0 ∨ i2 % 2 ≠ 0) → (cornerProbs [ax1, ax2] o m [i1, i2]).sum = 1   for all well-formed ax1, ax2.
+   What holds: the sum is 1 whenever the first coordinate is odd (each projected coordinate is then read from its own
+   axis), and, when only the second coordinate is odd, as soon as the first axis has the same neighbours there. -/
+theorem corner_probs_sum_one_axes_partial (i1 i2 : ℤ)
+    (hcase : i1 % 2 ≠ 0 ∨ (i2 % 2 ≠ 0 ∧ AgreeAt ax1 ax2 (posOf o i2)))
+    (hi1 : OddInterior ax1 o i1) (hi2 : OddInterior ax2 o i2)
+    (hT : m (oddAxes [i1, i2]) (totalBox [ax1, ax2] (oddAxes [i1, i2]) (posNd o [i1, i2])) ≠ 0) :
+    (cornerProbs [ax1, ax2] o m [i1, i2]).sum = 1 := by
+  by_cases p1 : i1 % 2 = 0 <;> by_cases p2 : i2 % 2 = 0
+  · tauto
+  · obtain ⟨sd, d1, d2, d3⟩ := oddInterior_split ax2 o hax2 i2 hi2 p2
+    obtain ⟨a0, a1, ao⟩ := hi2 p2
+    have hag : AgreeAt ax1 ax2 (posOf o i2) := by tauto
+    obtain ⟨x1, x2, x3⟩ := halfX_of_agree ax1 ax2 _ a0 hag.1 a1 hag.2.1 hag.2.2
+    have hS : oddAxes [i1, i2] = [1] := by rw [oddAxes_two]; simp [p1, p2]
+    rw [hS, totalBoxA_01, x3, d3] at hT
+    rw [cornerProbsA_01 ax1 ax2 o m i1 i2 p1 p2, x1, x2, x3, d1, d2, d3]
+    simp only [List.sum_cons, List.sum_nil, add_zero]
+    exact div_sum2 _ _ _ (halves_sum _ h1 ax2 _ sd) hT
+  · obtain ⟨sc, c1, c2, c3⟩ := oddInterior_split ax1 o hax1 i1 hi1 p1
+    have hS : oddAxes [i1, i2] = [0] := by rw [oddAxes_two]; simp [p1, p2]
+    rw [hS, totalBoxA_10, c3] at hT
+    rw [cornerProbsA_10 ax1 ax2 o m i1 i2 p1 p2, c1, c2, c3]
+    simp only [List.sum_cons, List.sum_nil, add_zero]
+    exact div_sum2 _ _ _ (halves_sum _ h0 ax1 _ sc) hT
+  · obtain ⟨sc, c1, c2, c3⟩ := oddInterior_split ax1 o hax1 i1 hi1 p1
+    obtain ⟨sd, d1, d2, d3⟩ := oddInterior_split ax2 o hax2 i2 hi2 p2
+    have hS : oddAxes [i1, i2] = [0, 1] := by rw [oddAxes_two]; simp [p1, p2]
+    rw [hS, totalBoxA_11, c3, d3] at hT
+    rw [cornerProbsA_11 ax1 ax2 o m i1 i2 p1 p2]
+    simp only [c1, c2, c3, d1, d2, d3, List.sum_cons, List.sum_nil, add_zero]
+    rw [← add_assoc, ← add_assoc]
+    exact div_sum4 _ _ _ _ _ (quarters_sum _ h01 ax1 ax2 _ _ sc sd) hT
+
+end two_d_axes
+
+/-- **where the coupled value is read from**: when the first coordinate is odd (alone or with the second) the value
+    returned for a corner is the grid state that corner stands for; when only the second coordinate is odd, the second
+    component of the returned value is a point of the *first* axis (`grid[projected_position + p]` indexes the axes by the
+    position in the projected tuple), whereas the grid state is on the second axis -/
+theorem corner_values_axes (ax1 ax2 : List ℚ) (c d : ℕ) (s t : ℤ) :
+    cornerRes [ax1, ax2] [0] [c, d] [s] = valuesAt [ax1, ax2] (cornerIdx [0] [c, d] [s]) ∧
+    cornerRes [ax1, ax2] [0, 1] [c, d] [s, t] = valuesAt [ax1, ax2] (cornerIdx [0, 1] [c, d] [s, t]) ∧
+    cornerRes [ax1, ax2] [1] [c, d] [s] = [pt ax1 c, pt ax1 (posOf d s)] ∧
+    valuesAt [ax1, ax2] (cornerIdx [1] [c, d] [s]) = [pt ax1 c, pt ax2 (posOf d s)] := by
+  refine ⟨?_, ?_, cornerResA_01 ax1 ax2 c d s, ?_⟩
+  · rw [cornerResA_10]; simp [valuesAt, cornerIdx, List.range_succ]
+  · rw [cornerResA_11]; simp [valuesAt, cornerIdx, List.range_succ]
+  · simp [valuesAt, cornerIdx, List.range_succ]
+
+section independent_axes
+variable (ax1c ax2c : List ℚ) (o : ℕ) (hax1 : AxisOK ax1c o) (hax2 : AxisOK ax2c o) (m : MarginMass) (m1 m2 : ℚ → ℚ → ℚ)
+  (hM1 : IsMass m1) (hM2 : IsMass m2) (hC : CarriedByAxes m m1 m2)
+include hax1 hax2 hM1 hM2 hC
+
+/- Full-strength statement, FALSE of the code as written (`axes_counterexample`): the same for the coarse states
+   `[2 * o, 2 * J]` of the second axis.  What holds: -/
+/-- **telescoping, d = 2, two different axes, mass carried by the axes**: the coupled coarse rate of every coarse state on
+    the *first* axis is its rate in the chain built on the un-refined grid -/
+theorem telescoping_nd_independent_axes_partial (I : ℕ) (hI : I < ax1c.length) (hIo : I ≠ o) :
+    coupledRate2 [refine amid ax1c, refine amid ax2c] (2 * o) m [2 * I, 2 * o] =
+      rateNd amid [ax1c, ax2c] o (joint 2 m) [I, o] := by
+  have hf1 := refine_axisOK amid amid_between ax1c o hax1
+  have hf2 := refine_axisOK amid amid_between ax2c o hax2
+  have hlo : (refine amid ax1c).length % 2 = 1 := by rw [refine_len]; have := hax1.hi; omega
+  have hlen := refine_len amid ax1c
+  have hlen2 := refine_len amid ax2c
+  rw [rateA_on_axis1 ax1c ax2c o hax1 hax2 m m1 m2 hC I hI,
+    ← (telescoping_1d amid amid_between amid_idem ax1c o hax1 m1 hM1 I hI hIo).1]
+  unfold coupledRate2 coupledRate
+  simp only [List.getD_cons_zero, List.getD_cons_succ]
+  rw [sum_map_range, sum_map_range]
+  apply sum_congr rfl
+  intro i hi'
+  have hi'' := mem_range.mp hi'
+  rw [sum_map_range, ← flowA_on_axis1 _ _ o hf1 hf2 hlo m m1 m2 hM1 hM2 hC i (2 * I) hi'']
+  rw [sum_eq_single (2 * o)]
+  · intro j hj hjo
+    have hj' := mem_range.mp hj
+    by_cases hio : i = 2 * o
+    · rw [hio]; exact flowA_axis2_to_axis1 _ _ o hf1 hf2 hlo m m1 m2 hM1 hM2 hC j (2 * I) (by omega)
+    · unfold flowNd
+      simp only [List.length_cons, List.length_nil, Nat.zero_add, Nat.reduceAdd]
+      rw [rateA_off_axes _ _ (2 * o) hf1 hf2 m m1 m2 hC i j hi'' hj' hio hjo]; simp
+  · intro h; exfalso; apply h; rw [mem_range]; have := hax2.hi; omega
+
+end independent_axes
+
 /-! ### dependent components: the margin-based corner probabilities are *not* exact (negation witness) -/
 
 /-- **counter-example, 2-d**: for the measure carried by the segment `{(x, 2x)}` (complete dependence; a measure:
@@ -592,5 +1037,116 @@ example : couple1d amid (refine amid [-2, -1, 0, 1, 3]) 4 (fun a b => 1 / a - 1 
 
 example : coupleNd [cexFine, cexFine] 2 lineMargin [1, 1] (1 / 3) = some [0, 1] ∧
     coupleNd [cexFine, cexFine] 2 lineMargin [0, 1] (3 / 4) = some [0, 1] := by decide +kernel
+
+/-! ### non-vacuity of the n-d hypotheses (d = 2, 3) -/
+
+theorem lebesgue_isMass : IsMass (fun a b => b - a) :=
+  ⟨fun a b c _ _ _ => by ring, fun a b h _ => by linarith⟩
+
+theorem straddles_of {a b : ℚ} (ha : a < 0) (hb : 0 < b) : straddles a b = true := by
+  simp [straddles, ha, hb]
+
+theorem not_straddles_of_away {a b : ℚ} (h : Away a b) : straddles a b = false := by
+  unfold straddles
+  rcases h with h | h
+  · have : ¬ 0 < b := by linarith
+    simp [this]
+  · have : ¬ a < 0 := by linarith
+    simp [this]
+
+/-- the hypotheses of `telescoping_nd_independent` are satisfiable (`indepMargin`: Lebesgue margins, mass on the axes) -/
+theorem indepMargin_carried2 : CarriedByAxes indepMargin (fun a b => b - a) (fun a b => b - a) := by
+  refine ⟨fun a b => rfl, fun a b => rfl, ?_, ?_, ?_⟩
+  · intro a b c d h hc hd
+    show (if straddles c d then b - a else 0) + (if straddles a b then d - c else 0) = b - a
+    rw [straddles_of hc hd, not_straddles_of_away h]; simp
+  · intro a b c d ha hb h
+    show (if straddles c d then b - a else 0) + (if straddles a b then d - c else 0) = d - c
+    rw [straddles_of ha hb, not_straddles_of_away h]; simp
+  · intro a b c d h1 h2
+    show (if straddles c d then b - a else 0) + (if straddles a b then d - c else 0) = 0
+    rw [not_straddles_of_away h1, not_straddles_of_away h2]; simp
+
+/-- … and those of `telescoping_nd_independent_3d` -/
+theorem indepMargin_carried3 :
+    CarriedByAxes3 indepMargin (fun a b => b - a) (fun a b => b - a) (fun a b => b - a) := by
+  have key : ∀ a b c d e f : ℚ, indepMargin [0, 1, 2] [(a, b), (c, d), (e, f)] =
+      (if straddles c d && straddles e f then b - a else 0) + (if straddles a b && straddles e f then d - c else 0) +
+        (if straddles a b && straddles c d then f - e else 0) := fun _ _ _ _ _ _ => rfl
+  refine ⟨fun a b => rfl, fun a b => rfl, fun a b => rfl, ?_, ?_, ?_, ?_, ?_, ?_⟩
+  · intro a b c d e f h hc hd he hf
+    rw [key, straddles_of hc hd, straddles_of he hf, not_straddles_of_away h]; simp
+  · intro a b c d e f ha hb h he hf
+    rw [key, straddles_of ha hb, straddles_of he hf, not_straddles_of_away h]; simp
+  · intro a b c d e f ha hb hc hd h
+    rw [key, straddles_of ha hb, straddles_of hc hd, not_straddles_of_away h]; simp
+  · intro a b c d e f h1 h2
+    rw [key, not_straddles_of_away h1, not_straddles_of_away h2]; simp
+  · intro a b c d e f h1 h2
+    rw [key, not_straddles_of_away h1, not_straddles_of_away h2]; simp
+  · intro a b c d e f h1 h2
+    rw [key, not_straddles_of_away h1, not_straddles_of_away h2]; simp
+
+theorem lebMargin_one (s : ℕ) (a b : ℚ) : lebMargin [s] [(a, b)] = b - a := by
+  simp [lebMargin]
+
+theorem lebMargin_two (s t : ℕ) (a b c d : ℚ) : lebMargin [s, t] [(a, b), (c, d)] = (b - a) * (d - c) := by
+  simp [lebMargin]
+
+theorem lebMargin_three (S : List ℕ) (a b c d e f : ℚ) :
+    lebMargin S [(a, b), (c, d), (e, f)] = (b - a) * (d - c) * (f - e) := by
+  simp [lebMargin]; ring
+
+/-- the hypotheses of `corner_probs_sum_one` / `corner_probs_sum_one_3d` are satisfiable (Lebesgue measure) -/
+theorem lebMargin_masses :
+    (∀ s, IsMass (fun a b => lebMargin [s] [(a, b)])) ∧
+    (∀ s t, IsBoxMass2 (fun a b c d => lebMargin [s, t] [(a, b), (c, d)])) ∧
+    IsBoxMass3 (fun a b c d e f => lebMargin [0, 1, 2] [(a, b), (c, d), (e, f)]) := by
+  refine ⟨fun s => ?_, fun s t => ?_, ?_⟩
+  · simp only [lebMargin_one]; exact lebesgue_isMass
+  · simp only [lebMargin_two]; exact lebesgue_isBoxMass2
+  · simp only [lebMargin_three]; exact lebesgue_isBoxMass3
+
+/-- d = 3 on the fine grid `[-1, -1/2, 0, 1/2, 1]^3`: three / two / one odd coordinates, and two couplings -/
+example : cornerProbs [cexFine, cexFine, cexFine] 2 lebMargin [1, 1, 1] = [1/8, 1/8, 1/8, 1/8, 1/8, 1/8, 1/8, 1/8] ∧
+    cornerProbs [cexFine, cexFine, cexFine] 2 lebMargin [-1, 0, 1] = [1/4, 1/4, 1/4, 1/4] ∧
+    cornerProbs [cexFine, cexFine, cexFine] 2 lebMargin [2, -1, 0] = [1/2, 1/2] ∧
+    coupleNd [cexFine, cexFine, cexFine] 2 lebMargin [1, -1, 1] (7 / 16) = some [0, 0, 1] ∧
+    coupleNd [cexFine, cexFine, cexFine] 2 lebMargin [2, -1, 0] (3 / 4) = some [1, 0, 0] := by decide +kernel
+
+/-- d = 3, independent components: the coarse state `(1, 0, 0)` (fine index `[4, 2, 2]`) receives its coarse rate 1/2 -/
+example : coupledRate3 [cexFine, cexFine, cexFine] 2 indepMargin [4, 2, 2] = 1 / 2 ∧
+    rateNd amid [cexCoarse, cexCoarse, cexCoarse] 1 (joint 3 indepMargin) [2, 1, 1] = 1 / 2 ∧
+    coupledRate3 [cexFine, cexFine, cexFine] 2 indepMargin [2, 2, 0] = 1 / 2 ∧
+    coupledRate3 [cexFine, cexFine, cexFine] 2 indepMargin [4, 0, 2] = 0 := by decide +kernel
+
+/-! ### two different axes: negation witness and non-vacuity -/
+
+/-- **negation witness, two different axes** (fine axes `cexFineA`, `cexFineB`, Lebesgue margins / Lebesgue mass on the
+    axes).  For the fine state `(0, 3/8)` (increment `[0, 3]`: only the second coordinate odd) the code reads the neighbours
+    1 and 2 of the *first* axis: the two "probabilities" are 5/8 and 13/8; the coupled value for u = 3/4 is `(0, 2)`,
+    and 2 is not a point of the second axis, whose states adjacent to 3/8 are 1/4 and 1/2; with independent components the
+    coarse state `(0, 1/2)` receives 17/64 instead of its rate 1/8.  All hypotheses of the partial theorems other than
+    "first coordinate odd / same neighbours" hold (`lebMargin_masses`, `indepMargin_carried2`). -/
+theorem axes_counterexample :
+    AxisOK cexFineA 4 ∧ AxisOK cexFineB 4 ∧ AxisOK cexCoarseA 2 ∧ AxisOK cexCoarseB 2 ∧
+    cornerProbs [cexFineA, cexFineB] 4 lebMargin [0, 3] = [5 / 8, 13 / 8] ∧
+    (cornerProbs [cexFineA, cexFineB] 4 lebMargin [0, 3]).sum ≠ 1 ∧
+    coupleNd [cexFineA, cexFineB] 4 lebMargin [0, 3] (3 / 4) = some [0, 2] ∧ (2 : ℚ) ∉ cexFineB ∧
+    pt cexFineB 7 = 3 / 8 ∧ pt cexFineB 6 = 1 / 4 ∧ pt cexFineB 8 = 1 / 2 ∧
+    coupledRate2 [cexFineA, cexFineB] 4 indepMargin [4, 8] = 17 / 64 ∧
+    rateNd amid [cexCoarseA, cexCoarseB] 2 (joint 2 indepMargin) [2, 4] = 1 / 8 := by
+  refine ⟨⟨by decide +kernel, by decide, by decide +kernel, by decide +kernel⟩,
+    ⟨by decide +kernel, by decide, by decide +kernel, by decide +kernel⟩,
+    ⟨by decide +kernel, by decide, by decide +kernel, by decide +kernel⟩,
+    ⟨by decide +kernel, by decide, by decide +kernel, by decide +kernel⟩, ?_⟩
+  decide +kernel
+
+/-- non-vacuity of the partial theorems on the same two axes: first coordinate odd -/
+example : cornerProbs [cexFineA, cexFineB] 4 lebMargin [3, 0] = [1 / 2, 1 / 2] ∧
+    cornerProbs [cexFineA, cexFineB] 4 lebMargin [3, 3] = [1 / 4, 1 / 4, 1 / 4, 1 / 4] ∧
+    coupleNd [cexFineA, cexFineB] 4 lebMargin [3, 3] (5 / 8) = some [2, 1 / 4] ∧
+    coupledRate2 [cexFineA, cexFineB] 4 indepMargin [8, 4] = 1 / 2 ∧
+    rateNd amid [cexCoarseA, cexCoarseB] 2 (joint 2 indepMargin) [4, 2] = 1 / 2 := by decide +kernel
 
 end Rpylib.Coupling
